@@ -43,12 +43,14 @@ META = {
                   "simple update": "gate_simple(_) with symbolic positive gauges on every bond (D=2): one-site gates on every site of a "
                                    "3-chain and of the 4-node ring+chord graph and of an MPO L=2 (sandwich), plain / transpose / dagger, "
                                    "site bare or 1-tuple; nearest-neighbour two-site gates on the 3-chain (all 4 ordered pairs) and on a "
-                                   "3-leaf star hub (3 pairs), renorm=False with smudge=0.0 (exact value) and renorm=True (value up to "
-                                   "the reported scale, unit-norm gauge); non-adjacent pairs: label / tag / gauge-store plumbing "
+                                   "3-leaf star hub (3 pairs), renorm=False with smudge=0.0 (exact value; gate_simple_ on all pairs, "
+                                   "gate_simple on 3) and the default renorm=True on 2 of the 4 pairs (value up to the reported scale, "
+                                   "unit-norm gauge); non-adjacent pairs (chain ends, star leaves; default and explicit path): label / tag / gauge-store plumbing "
                                    "symbolically, value by a NUMERIC-ONLY supplement (3 random points)"},
         "thorough": {"geometries": "adds MPS L=4, PEPS D=2", "phys dims": "adds d=3",
-                     "simple update": "adds the default smudge=1e-12 for nearest-neighbour pairs; symbolic value goal for two non-adjacent "
-                                      "pairs (not mandatory: no verdict from the certificate search so far)"},
+                     "simple update": "adds the default smudge=1e-12 (one case per ordered nearest-neighbour pair), renorm=True and "
+                                      "non-inplace gate_simple on the remaining pairs; symbolic value goal for two non-adjacent "
+                                      "pairs (not mandatory: no verdict from the certificate search within 400 s so far)"},
     },
     "outside": ["truncating calls (cutoff=0, no bond cap)", "parametrised (PTensor) gates",
                 "block-sparse / fermionic arrays", "3D lattices",
@@ -688,12 +690,11 @@ def _gs_adjacent(geom, w):
 
 
 # nearest-neighbour pairs with smudge=0.0 decide in seconds (quick); the default smudge (1e-12 * max(g): one more defined
-# inverse per outer bond) costs ~10x: thorough tier.  The longer-range route chains 3 SVDs + 2 QRs: its value identity is
+# inverse per outer bond) costs ~20x: thorough tier (_P_GS2_SMUDGE below).  The longer-range route chains 3 SVDs + 2 QRs: its value identity is
 # beyond the present certificate search (no verdict within 400 s) - two representatives are kept in the thorough tier,
 # not mandatory, like the chained MPS modes of gate_mps_modes; quick tier: gate_simple_long_range
-_P_GS2 = ([{"geom": "chain", "where": w, "opt": o, "sm": sm, "ip": True,
-            "_tiers": ("quick", "thorough") if sm == 0.0 else ("thorough",)}
-           for w in _wheres(3, 2) if _gs_adjacent("chain", w) for o in _GS_OPTS for sm in (0.0, "default")]
+_P_GS2 = ([{"geom": "chain", "where": w, "opt": o, "sm": 0.0, "ip": True}
+           for w in _wheres(3, 2) if _gs_adjacent("chain", w) for o in _GS_OPTS]
           + [{"geom": "chain", "where": w, "opt": o, "sm": 0.0, "ip": False,
               "_tiers": ("quick", "thorough") if (w, o) in (((0, 1), "plain"), ((2, 1), "transpose"), ((0, 1), "dagger")) else ("thorough",)}
              for w in ((0, 1), (2, 1)) for o in _GS_OPTS]
@@ -703,6 +704,13 @@ _P_GS2 = ([{"geom": "chain", "where": w, "opt": o, "sm": sm, "ip": True,
              for w, o in (((0, 2), "plain"), ((2, 0), "transpose"))])
 
 
+# default smudge: ~45 s each on an idle core, several minutes when the machine is loaded -> own (longer) time limit, one
+# representative per ordered nearest-neighbour pair
+_P_GS2_SMUDGE = [{"geom": "chain", "where": w, "opt": o, "sm": "default", "ip": True, "_tiers": ("thorough",)}
+                 for w, o in (((0, 1), "plain"), ((1, 0), "transpose"), ((1, 2), "dagger"), ((2, 1), "transpose"))]
+
+
+@obligation(PROP, params=_P_GS2_SMUDGE, rounds=2, timeout_s=1200, wall_s=600, max_rows=80000)
 @obligation(PROP, params=_P_GS2, rounds=2, timeout_s=400, wall_s=300, max_rows=80000)
 def gate_simple_two_site(mk, geom, where, opt, sm, ip):
     """gate_simple_ with a TWO-site gate on a gauged state (symbolic positive gauge on every bond): nearest-neighbour
